@@ -32,6 +32,11 @@ def run_property(pid, mod, tier, seed, t0):
             print(audit["log"][-3000:]); print(f"MACHINERY-ERROR property={pid} hand-written proofs do not build"); return 2
         broken.append({"kind": "proof-obligation", "what": "regenerated definitions no longer satisfy the tie obligations",
                        "errors": audit["failed_decls"][:10], "log_tail": audit["log"][-1500:]})
+    lc = None
+    if tier == "thorough" and audit["ok"]:
+        lc = leangate.leanchecker([f"PyXABProofs.Props.{pid}"] + list(getattr(mod, "LEAN_EXTRA", ())))
+        if not lc["ok"]:
+            print(lc["tail"]); print(f"MACHINERY-ERROR property={pid} leanchecker rejected a compiled module"); return 2
     # 3. correspondence + monitors
     budget = mod.budget(tier)
     res = mod.explore(tier, seed, budget)          # -> dict(cases, mism, n_ops, extra)
@@ -100,6 +105,7 @@ def run_property(pid, mod, tier, seed, t0):
         "property_theorems": [n for n, _ in audit["theorems"] if ".Generated." not in n],
         "generated_tie_obligations": audit["generated_theorems"],
         "lean_sources_scanned": nfiles,
+        "leanchecker": lc,
         "forbidden_constructs_found": 0,
         "evaluations": len(cases),
         "distinct_nontrivial": distinct,
